@@ -54,6 +54,10 @@ def judge(obs):
         return ['load failed without an injected fault: %s %s' % (obs['outcome'], obs.get('error'))]
     log = obs['log']
     files = LC.CASES[obs['case']]
+    stale = [e for e in log if e[0] == 'stale']
+    if stale:
+        problems.append('a processor of an earlier, replaced registration still ran (%d calls, first on %s %r)' % (
+            len(stale), stale[0][1], stale[0][3]))
     procs = [e for e in log if e[0] == 'proc']
     inits = [i for i, e in enumerate(log) if e[0] == 'init']
     first_proc = next((i for i, e in enumerate(log) if e[0] == 'proc'), None)
